@@ -185,6 +185,17 @@ def run(ctx: Ctx) -> int:
             saved_var, advanced = save[0].targets[0].id, adv[0].targets[0].id
             ok = saved_var != advanced and save[0].value.id == advanced and lp.body.index(save[0]) < lp.body.index(adv[0])
             ctx.oblige("C19.b", ok, lp, f"`{saved_var}` remembers the previous `{advanced}` before it is advanced (the walk continues until a fixpoint)" if ok else f"`{saved_var}` is assigned after `{advanced}` was advanced: the loop condition `{ast.unparse(cmp_)}` fails after the first step, so only one missing parent level is tolerated for the doubled creatable flag", fn=init)
+    if n_fp == 0:
+        # the same walk written as a single step (`if` instead of `while`): one level only
+        for st in [n_ for n_ in walk_local(init) if isinstance(n_, ast.If)]:
+            cmps = [x for x in ast.walk(st.test) if isinstance(x, ast.Compare) and len(x.ops) == 1 and isinstance(x.ops[0], ast.NotEq) and isinstance(x.left, ast.Name) and isinstance(x.comparators[0], ast.Name)]
+            probes = [c for c in ast.walk(st.test) if isinstance(c, ast.Call) and call_name(c) in ("os.path.isdir", "os.path.exists")]
+            for cmp_ in cmps:
+                cur, prev = cmp_.left.id, cmp_.comparators[0].id
+                body_assigns = {t.id for s_ in st.body if isinstance(s_, ast.Assign) for t in s_.targets if isinstance(t, ast.Name)}
+                if probes and {cur, prev} <= body_assigns:
+                    n_fp += 1
+                    ctx.oblige("C19.b", False, st, f"the walk to the nearest existing ancestor (`{ast.unparse(st.test)[:70]}`) is a single `if` step, not a loop: a path with two or more missing parent levels is rejected for the doubled creatable flag although it can be created", fn=init)
     ctx.floor("C19.b-fixpoint-loops", n_fp, 1)
 
     # every file-system probe of the mode checks looks at the RESOLVED path (the value stored as self._absolute,
